@@ -20,7 +20,7 @@ from lib.coqterm import cbool, cbytes, clist, cN, copt, cZ
 
 ID = "C16"
 QUICK_N = 700
-THOROUGH_N = 7000
+THOROUGH_N = 5600
 SHARD = 60
 COQ_PRELUDE = "From MV Require Import Model.LeafCert Model.LeafCertSpec.\nFrom MV Require Model.LeafCertCtx.\n"
 TRANSLATORS = ["leafcert_const"]
